@@ -1123,6 +1123,26 @@ func (e *execEngine) query(ws []string) string {
 	}
 	n := e.nodes[0]
 	switch ws[0] {
+	case "proofs": // q proofs <tx> | <tx> | ... : the executor's proof-verification fan-out over these transactions (nothing is executed)
+		var txs []pb.Transaction
+		for _, t := range splitTxs(ws[1:]) {
+			tx, _, err := e.buildTx(n, t)
+			if err != nil {
+				return "bad-op " + err.Error()
+			}
+			txs = append(txs, tx)
+		}
+		inv := n.exec.VerifVerifyProofs(txs)
+		ks := make([]int, 0, len(inv))
+		for k := range inv {
+			ks = append(ks, k)
+		}
+		sort.Ints(ks)
+		var ps []string
+		for _, k := range ks {
+			ps = append(ps, fmt.Sprintf("%d:%s", k, errClass(inv[k])))
+		}
+		return "inv={" + strings.Join(ps, " ") + "}"
 	case "status": // q status <ibtp id or global id>
 		r := n.view(constant.TransactionMgrContractAddr.Address(), "GetStatus", pb.String(ws[1]))
 		if !r.IsSuccess() {
